@@ -160,6 +160,19 @@ def part_special(ctx):
         elif k == 'err' or not close(v, math.atan2(y, x)) or not (-math.pi < v <= math.pi):
             ctx.violation('arctan2(x=%r, y=%r) should be the angle of the point (x, y) = %r' % (x, y, math.atan2(y, x)), case, impl=v if k == 'err' else repr(v))
         ctx.case(case, nontrivial_key=('atan2', x, y), kind='arctan2')
+    # functions of REAL arguments: a complex argument is outside the domain -> student-facing error, never a value
+    cplx = ['i', '1+i', '2-3*i', '0.5*i', '(1+i)^2', 'sqrt(0-4)']
+    real = ['1', '2', '0-1.5', '0', 'pi']
+    for it in range(ctx.scale(60, 600)):
+        f = rng.choice(['arctan2', 'arctan2', 'min', 'max', 'floor', 'ceil', 'fact', 'factorial'])
+        nargs = 2 if f in ('arctan2', 'min', 'max') else 1
+        args = [rng.choice(real) for _ in range(nargs)]
+        args[rng.randrange(nargs)] = rng.choice(cplx)
+        expr = '%s(%s)' % (f, ', '.join(args))
+        k, v = D.run_impl(lambda: ev(expr))
+        if not (k == 'err' and v[0] is True):
+            ctx.violation('%s has a complex argument (outside the domain of %s): a student-facing error is required' % (expr, f), {'part': 'real-domain', 'expr': expr}, impl=v if k == 'err' else repr(v))
+        ctx.case({'real-domain': expr}, nontrivial_key=('realdom', expr), kind='real-domain')
     for a, b in [(1, 1), (1, 2), (0, 0), (-3, -3), (2.5, 2.5), (2, 2.5)]:
         k, v = D.run_impl(lambda: ev('kronecker(%s, %s)' % (fmt(a), fmt(b))))
         if not (k == 'out' and v == (1 if a == b else 0)):
